@@ -513,9 +513,10 @@ public:
   void deleteNode(Nref nodeObject)
   {
     // first deleting the node in the graph
-    getGraph()->deleteNode(getNodeGraphid(nodeObject));
-    // then forgetting
-    dissociateNode(nodeObject);
+    NodeGraphid node = getNodeGraphid(nodeObject);
+    getGraph()->deleteNode(node);
+    // then forgetting: object, graph id and index
+    deletedNodesUpdate(std::vector<unsigned int>(1, node));
   }
 
 
@@ -1481,9 +1482,20 @@ public:
       if (graphidToE_.size() > *currEdge)
       {
         Eref edgeObject = graphidToE_.at(*currEdge);
+        if (!edgeObject)
+          continue;
         graphidToE_.at(*currEdge) = 00;
 
         EToGraphid_.erase(edgeObject);
+
+        // the index of a deleted edge is forgotten too
+        auto foundIndex = EToIndex_.find(edgeObject);
+        if (foundIndex != EToIndex_.end())
+        {
+          if (foundIndex->second < indexToE_.size())
+            indexToE_.at(foundIndex->second) = 00;
+          EToIndex_.erase(foundIndex);
+        }
       }
     }
   }
@@ -1499,9 +1511,20 @@ public:
       if (graphidToN_.size() > *currNode)
       {
         Nref nodeObject = graphidToN_.at(*currNode);
+        if (!nodeObject)
+          continue;
         graphidToN_.at(*currNode) = 00;
 
         NToGraphid_.erase(nodeObject);
+
+        // the index of a deleted node is forgotten too
+        auto foundIndex = NToIndex_.find(nodeObject);
+        if (foundIndex != NToIndex_.end())
+        {
+          if (foundIndex->second < indexToN_.size())
+            indexToN_.at(foundIndex->second) = 00;
+          NToIndex_.erase(foundIndex);
+        }
       }
     }
   }
